@@ -280,3 +280,66 @@ Example pop_without_refill_loses_tip :
 Proof.
   exists [(2, [2])], [(1, [1])], (2, [2]). split; [split; [simpl; auto|discriminate]|]. split; [discriminate|reflexivity].
 Qed.
+
+(* ------------------------------------------------------------------ PrepareCache (restart): the cache is rebuilt
+   as the newest maxSize blocks of the chain, so the cached tip is the database tip again *)
+Fixpoint contig (c : bcache) : Prop :=
+  match c with
+  | (h, _) :: (((h', _) :: _) as t) => h = h' + 1 /\ contig t
+  | _ => True
+  end.
+
+Lemma contig_tail : forall x c, contig (x :: c) -> contig c.
+Proof. intros [h i] [|[h' i'] t]; simpl; tauto. Qed.
+
+Lemma prefix_firstn : forall n (l : bcache), is_list_prefix (firstn n l) l.
+Proof. induction n as [|n IH]; intros [|x l]; simpl; auto. Qed.
+
+Lemma push_fold : forall maxSize m p, (1 <= maxSize)%nat -> contig (rev (p ++ m)) ->
+  fold_left (fun c x => match c with Some c' => bc_push maxSize c' (fst x) (snd x) | None => None end) m
+            (Some (firstn maxSize (rev p))) = Some (firstn maxSize (rev (p ++ m))).
+Proof.
+  intros maxSize m. induction m as [|[h i] m IH]; intros p Hm Hc.
+  - rewrite app_nil_r. reflexivity.
+  - simpl fold_left.
+    assert (Hstep : bc_push maxSize (firstn maxSize (rev p)) h i = Some (firstn maxSize (rev (p ++ [(h, i)])))).
+    { rewrite rev_app_distr. simpl rev. simpl app.
+      assert (Hc' : contig ((h, i) :: rev p)).
+      { replace (p ++ (h, i) :: m) with ((p ++ [(h, i)]) ++ m) in Hc by (rewrite <- app_assoc; reflexivity).
+        rewrite rev_app_distr in Hc. rewrite rev_app_distr in Hc. simpl in Hc.
+        clear -Hc. induction (rev m) as [|y t IHt]; simpl in *; auto. apply IHt. eapply contig_tail; eauto. }
+      unfold bc_push. destruct maxSize as [|n]; [inversion Hm|].
+      destruct (rev p) as [|[h0 i0] t] eqn:Er.
+      - rewrite firstn_nil. simpl. rewrite firstn_nil. reflexivity.
+      - simpl firstn at 1. simpl in Hc'. destruct Hc' as [Hh _]. subst h. rewrite N.eqb_refl. simpl negb. cbv iota.
+        change (firstn (S n) ((h0 + 1, i) :: (h0, i0) :: t)) with ((h0 + 1, i) :: firstn n ((h0, i0) :: t)).
+        f_equal. f_equal.
+        change ((h0, i0) :: firstn n t) with (firstn (S n) ((h0, i0) :: t)).
+        remember ((h0, i0) :: t) as l0 eqn:El0.
+        destruct (Nat.leb (S n) (length (firstn (S n) l0))) eqn:El.
+        + apply Nat.leb_le in El. rewrite firstn_length in El. apply removelast_firstn. lia.
+        + apply Nat.leb_gt in El. rewrite firstn_length in El.
+          rewrite (firstn_all2 l0) by lia. rewrite (firstn_all2 (n := n) l0) by lia. reflexivity. }
+    rewrite Hstep. replace (p ++ (h, i) :: m) with ((p ++ [(h, i)]) ++ m) by (rewrite <- app_assoc; reflexivity).
+    apply IH; auto. rewrite <- app_assoc. exact Hc.
+Qed.
+
+Theorem cached_tip_after_prepare : forall maxSize chain, (1 <= maxSize)%nat -> contig chain ->
+  exists c, bc_prepare maxSize chain = Some c /\ cache_ok c chain /\ bc_last c = hd_error chain.
+Proof.
+  intros maxSize chain Hm Hc. unfold bc_prepare.
+  set (l := firstn (S maxSize) chain).
+  assert (Hl : contig l).
+  { unfold l. clear -Hc. revert chain Hc. induction (S maxSize) as [|n IH]; intros [|[h i] t] Hc; simpl; auto.
+    destruct t as [|[h' i'] t']; [destruct n; simpl; auto|]. destruct Hc as [E Hc]. destruct n; simpl; auto. split; auto.
+    apply (IH ((h', i') :: t')). exact Hc. }
+  pose proof (push_fold maxSize (rev l) [] Hm) as H. simpl in H. rewrite rev_involutive in H. specialize (H Hl).
+  destruct maxSize as [|n]; [inversion Hm|]. simpl firstn in H at 1.
+  exists (firstn (S n) l). split; [exact H|].
+  assert (E : firstn (S n) l = firstn (S n) chain).
+  { unfold l. rewrite firstn_firstn. f_equal. lia. }
+  rewrite E. split; [split|].
+  - apply prefix_firstn.
+  - destruct chain; [congruence|discriminate].
+  - destruct chain; reflexivity.
+Qed.
